@@ -134,8 +134,10 @@ K2Class(sp) == SigDigits(sp) > 19
 \*           (observations, not checked): the Value must keep what it is shown.
 ValueDeWhy(e) ==
   IF e.ev = "value_de" /\ ~CertsOK(e.certs) THEN "certificate"
+  ELSE IF "t" \in DOMAIN e.back /\ Keeps(e.expect, e.back, e.certs) THEN ""
+  \* known finding K4: the number-token protocol (a map whose first key is the token IS a number) works in both directions
+  ELSE IF HasTokenKey(e.v) THEN "k4"
   ELSE IF "t" \notin DOMAIN e.back THEN "panic_or_error"
-  ELSE IF Keeps(e.expect, e.back, e.certs) THEN ""
   ELSE IF (\E sp \in NumbersOf(e.v) : K2Class(sp)) THEN "k2"
   ELSE "value_de"
 
